@@ -274,7 +274,7 @@ impl PresentationRequestPayload {
 }
 
 impl RequestedProof {
-    // get list of revealed attributes per credential
+    // get list of attribute referents (revealed or not) per credential
     pub(crate) fn get_attributes_for_credential(&self, index: u32) -> HashSet<String> {
         let mut referents = HashSet::new();
         for (referent, into) in self.revealed_attrs.iter() {
@@ -283,6 +283,12 @@ impl RequestedProof {
             }
         }
         for (referent, into) in self.revealed_attr_groups.iter() {
+            if into.sub_proof_index == index {
+                referents.insert(referent.to_string());
+            }
+        }
+        // the non-revocation interval of a referent applies whether or not its value is revealed
+        for (referent, into) in self.unrevealed_attrs.iter() {
             if into.sub_proof_index == index {
                 referents.insert(referent.to_string());
             }
